@@ -1,0 +1,14 @@
+//go:build verif
+
+package concurrent
+
+// VerifHook, when set by the verification harness (build tag verif), is called at named sites
+// between the critical steps of atom and future operations, so that a monitor can yield, delay
+// or park the calling goroutine there.
+var VerifHook func(site string, obj any)
+
+func verifHook(site string, obj any) {
+	if h := VerifHook; h != nil {
+		h(site, obj)
+	}
+}
